@@ -22,7 +22,7 @@ from harness.framework import Check
 
 PROP = "C17"
 FLAGS = ["q_macro_opaque", "q_test_attr_substring", "q_cfg_test_literal", "q_attr_stop_at_comment", "q_chain_start_line",
-         "q_for_header_in_loop", "q_clone_first_pattern", "q_net_bare_type"]
+         "q_for_header_in_loop", "q_clone_first_pattern", "q_net_bare_type", "q_wrapper_method_form", "q_blocking_msg_line"]
 HEADER = ("From TL Require Import Lib.Base Model.RustSafetyTypes Model.RustSafetySpec Model.RustSafety Model.RustSafetyRun "
           "Actual.RustSafetyActual.\n")
 LINTERS = ["unwrap-abuse", "clone-abuse", "blocking-async"]
@@ -34,6 +34,7 @@ OPTION_KEYS = {
 
 # the documented vocabulary (docs/*-linter.md), not read from the code
 FN_ATTRS_TEST = ["#[test]", "#[tokio::test]", '#[tokio::test(flavor = "multi_thread")]']
+FN_ATTRS_CFG_TEST = ["#[cfg(test)]", '#[cfg(all(test, feature = "slow"))]']  # a function compiled under cfg(test) only
 FN_ATTRS_OTHER = ["#[cfg(not(test))]", "#[cfg(any(test, debug_assertions))]", '#[cfg(feature = "testing")]',
                   "#[allow(clippy::tests_outside_test_module)]", '#[doc = "helpers for cfg(test) builds"]',
                   "#[inline]", "#[allow(dead_code)]", "#[should_panic]", "#[ignore]", "#[must_use]"]
@@ -47,7 +48,7 @@ WRAPPERS = ["asyncify", "spawn_blocking", "block_in_place"]
 RISKY_METHODS = ["unwrap", "expect", "clone"]
 NEUTRAL_METHODS = ["len", "iter", "to_string", "unwrap_or", "unwrap_or_default", "unwrap_err", "expect_err", "cloned", "clone_from",
                    "to_owned", "push", "send", "next", "map", "unwrapped", "cloner"]
-VARS = ["v0", "v1", "v2", "v3", "conf", "data"]
+VARS = ["v0", "v1", "v2", "v3", "cfg", "data", "test"]
 MACROS = ["println", "format", "vec", "assert", "assert_eq", "dbg"]
 LOOPK = {"for": "LFor", "while": "LWhile", "loop": "LLoop"}
 
@@ -122,6 +123,13 @@ class Gen:
 
     def call(self, depth):
         r = self.r
+        if r.random() < 0.07:
+            # method-form wrapper: handle.spawn_blocking(|| ..), rt.block_in_place(move || { .. })
+            inner = self.planted_blocking(depth - 1) if r.random() < 0.8 else self.expr(depth - 1)
+            body = inner if r.random() < 0.5 else [["Block"], [[["Stmt", r.random() < 0.6], [inner]]]]
+            recv = r.choice([[["Id", "rt"], []], [["Id", "handle"], []], [["Call", 0, 0, ["Handle", "current"]], []]])
+            name = r.choice(WRAPPERS + ["spawn_blocking", "spawn", "spawn_local"])
+            return [["Method", 0, 0, 0, name, False], [recv, [["Closure", "", r.random() < 0.5], [body]]]]
         if r.random() < 0.25:
             # a (near-)wrapper call around a closure that usually contains a documented blocking call
             inner = self.planted_blocking(depth - 1) if r.random() < 0.75 else self.expr(depth - 1)
@@ -192,6 +200,10 @@ class Gen:
 
     def stmts(self, depth, lo=1, hi=4, tail_ok=False):
         out = [self.stmt(depth) for _ in range(self.r.randint(lo, hi))]
+        if depth > 0 and any(kname(x) == "Let" for x in out) and self.r.random() < 0.12:
+            # an attributed nested item after a let: the identifier tokens of its attributes (cfg, test, ...) are
+            # `identifier` nodes of the block and count as appearances of a variable of that name
+            out.append(self.fn(0, nested=True))
         if tail_ok and out and kname(out[-1]) == "Stmt" and kname(out[-1][1][0]) not in ("Loop", "If", "Match", "Block") and self.r.random() < 0.25:
             out[-1][0][1] = False
         return out
@@ -233,7 +245,7 @@ class Gen:
     # ---- items
     def pre(self, on_fn: bool, want_test: bool | None = None):
         r = self.r
-        test = FN_ATTRS_TEST if on_fn else MOD_ATTRS_TEST
+        test = (FN_ATTRS_TEST * 3 + FN_ATTRS_CFG_TEST) if on_fn else MOD_ATTRS_TEST
         other = FN_ATTRS_OTHER if on_fn else MOD_ATTRS_OTHER
         out = []
         if want_test is None:
@@ -576,7 +588,7 @@ def _canon(vs):
     for v in vs:
         rid = str(v["rule_id"])
         if rid.split(".")[0] in LINTERS:
-            out.append([rid, int(v["line"]), int(v["column"])])
+            out.append([rid, int(v["line"]), int(v["column"]), str(v["message"])])
     return sorted(out)
 
 
@@ -619,17 +631,36 @@ def run_impl(case):
         for cfg in case["runs"]:
             _orch.config = copy.deepcopy(cfg)
             vs = _orch.lint_file(f)
-            res.append(_canon([{"rule_id": v.rule_id, "line": v.line, "column": v.column} for v in vs]))
+            res.append(_canon([{"rule_id": v.rule_id, "line": v.line, "column": v.column, "message": v.message} for v in vs]))
         return {"runs": res, "failures": drain_failures(), "parse_error": _parse_error(case["text"])}
 
 
 # ------------------------------------------------------------------ judging
+def call_rows(items, acc=None):
+    """rows on which a call expression starts or a method name sits"""
+    acc = set() if acc is None else acc
+    for n in items:
+        k = n[0]
+        if k[0] == "Method":
+            acc.update((k[1], k[3]))
+        elif k[0] == "Call":
+            acc.add(k[1])
+        call_rows(n[1], acc)
+    return acc
+
+
+def coq_lines(case) -> str:
+    """the source lines (text between newlines, as the code's code.split("\\n") yields them) of the rows that carry a call"""
+    lines = case["text"].split("\n")
+    return coq.coq_list([f"({r}, {qs(lines[r])})" for r in sorted(call_rows(case["items"])) if r < len(lines)])
+
+
 def coq_case(case, impl, fn="judge") -> str:
     runs = []
     for cfg, r in zip(case["runs"], impl["runs"]):
-        reps = coq.coq_list([f"({qs(rid)}, {l}, {c})" for rid, l, c in (r if isinstance(r, list) else [])])
+        reps = coq.coq_list([f"({qs(rid)}, {l}, {c}, {qs(m)})" for rid, l, c, m in (r if isinstance(r, list) else [])])
         runs.append(f"({coq_config(cfg)}, {reps})")
-    return f"{fn} rust_actual {coq_file(case['items'])} {coq.coq_list(runs)}"
+    return f"{fn} rust_actual {coq_lines(case)} {coq_file(case['items'])} {coq.coq_list(runs)}"
 
 
 def _run_shard(args):
@@ -713,7 +744,7 @@ def features(items, acc=None, ctx=()):
         here = ctx
         if t in ("Fn", "Mod"):
             texts = [p[1] for p in k[1] if p[0] == "A"]
-            if any(a in FN_ATTRS_TEST + MOD_ATTRS_TEST for a in texts):
+            if any(a in FN_ATTRS_TEST + MOD_ATTRS_TEST + FN_ATTRS_CFG_TEST for a in texts):
                 here = here + ("test",)
                 acc.add("ctx:test-item")
             if any(a in FN_ATTRS_OTHER + MOD_ATTRS_OTHER and "test" in a for a in texts):
@@ -738,6 +769,9 @@ def features(items, acc=None, ctx=()):
             here = here + ("macro",)
         elif t == "Closure":
             acc.add("ctx:closure")
+        elif t == "Method" and k[4] in WRAPPERS:
+            acc.add("ctx:method-form-wrapper")
+            here = here + ("mwrapper",)
         elif t == "Method" and k[4] in RISKY_METHODS:
             acc.add("call:" + k[4])
             for c in ("test", "loop", "macro"):
@@ -757,7 +791,7 @@ def features(items, acc=None, ctx=()):
             cls = _py_class(p)
             if cls:
                 acc.add("call:" + cls)
-                for c in ("test", "async", "wrapper", "macro"):
+                for c in ("test", "async", "wrapper", "mwrapper", "macro"):
                     if c in here:
                         acc.add(f"call:{cls}-in-{c}")
         elif t == "Let":
